@@ -18,6 +18,8 @@ enum Op {
     GSet(usize, f64),
     GInc(usize, f64),
     Rec(usize, f64),
+    /// histogram.record_many(v, n) through the handle
+    RecN(usize, f64, usize),
     Describe(usize, &'static str, Option<Unit>),
     Render,
     Upkeep,
@@ -68,6 +70,8 @@ fn alphabet() -> Vec<Op> {
         Op::Rec(7, 2.0),
         Op::Rec(7, f64::INFINITY),
         Op::Rec(5, f64::NAN),
+        Op::RecN(7, 1.5, 3),
+        Op::RecN(5, 2.5, 0),
         Op::Describe(0, "first", None),
         Op::Describe(0, "second", Some(Unit::Bytes)),
         Op::Describe(5, "hist", Some(Unit::Seconds)),
@@ -128,6 +132,7 @@ fn apply_real(rec: &PrometheusRecorder, op: Op) {
         Op::GSet(k, v) => rec.register_gauge(&mk_key(k), &META).set(v),
         Op::GInc(k, v) => rec.register_gauge(&mk_key(k), &META).increment(v),
         Op::Rec(k, v) => rec.register_histogram(&mk_key(k), &META).record(v),
+        Op::RecN(k, v, n) => rec.register_histogram(&mk_key(k), &META).record_many(v, n),
         Op::Describe(k, t, u) => {
             let n = mk_key(k).name().to_string();
             if n.starts_with('c') {
@@ -156,6 +161,12 @@ fn apply_model(m: &mut Model, op: Op, global: &[(&str, &str)]) {
             *m.gauges.entry(series(k, global)).or_insert(0.0) += v;
         }
         Op::Rec(k, v) => m.hists.entry(series(k, global)).or_default().push(v),
+        Op::RecN(k, v, n) => {
+            let h = m.hists.entry(series(k, global)).or_default();
+            for _ in 0..n {
+                h.push(v);
+            }
+        }
         Op::Describe(k, t, u) => {
             // the first description given for the name is the one that counts, text and unit alike
             m.help.entry(mk_key(k).name().to_string()).or_insert(t.to_string());
